@@ -48,6 +48,8 @@ func (o HOp) String() string {
 		return fmt.Sprintf("chmod(%s,%#o)", o.Path, o.Perm)
 	case "rename":
 		return fmt.Sprintf("rename(%s->%s)", o.Path, o.To)
+	case "wstat":
+		return fmt.Sprintf("wstat(%s,mode=%#o,length=%d,name=%q)", o.Path, o.Perm, o.Off, o.To)
 	}
 	return fmt.Sprintf("%s(%s)", o.Kind, o.Path)
 }
@@ -224,9 +226,22 @@ func (r *c19Run) do(o HOp) (mismatch string, skip bool) {
 		ierr = r.sess.Clunk(ctx, 5)
 		terr = r.twinFile.Close()
 		r.twinFile, r.openPath = nil, ""
-	case "truncate", "chmod", "rename", "remove":
+	case "truncate", "chmod", "rename", "remove", "wstat":
 		if _, err := os.Lstat(tp(o.Path)); err != nil {
 			return "", true
+		}
+		if o.Kind == "wstat" {
+			// one wstat changing several things at once: judged where each of
+			// the equivalent direct operations succeeds (a regular file, the
+			// new name free or a regular file), so that their order is immaterial
+			if fi, err := os.Lstat(tp(o.Path)); err != nil || !fi.Mode().IsRegular() {
+				return "", true
+			}
+			if o.To != "" {
+				if fi, err := os.Lstat(filepath.Join(filepath.Dir(tp(o.Path)), o.To)); err == nil && !fi.Mode().IsRegular() {
+					return "", true
+				}
+			}
 		}
 		fid := p9p.Fid(6)
 		viaOpen := r.openPath == o.Path
@@ -245,6 +260,27 @@ func (r *c19Run) do(o HOp) (mismatch string, skip bool) {
 		case "chmod":
 			ierr = r.sess.WStat(ctx, fid, p9p.Dir{Mode: o.Perm, Length: ^uint64(0)})
 			terr = os.Chmod(tp(o.Path), os.FileMode(o.Perm&0777))
+		case "wstat":
+			d := p9p.Dir{Mode: ^uint32(0), Length: ^uint64(0), Name: o.To}
+			if o.Perm != 0 {
+				d.Mode = o.Perm
+			}
+			if o.Off >= 0 {
+				d.Length = uint64(o.Off)
+			}
+			ierr = r.sess.WStat(ctx, fid, d)
+			if o.Perm != 0 {
+				terr = os.Chmod(tp(o.Path), os.FileMode(o.Perm&0777))
+			}
+			if o.Off >= 0 && terr == nil {
+				terr = os.Truncate(tp(o.Path), o.Off)
+			}
+			if o.To != "" && terr == nil {
+				terr = syscall.Rename(tp(o.Path), filepath.Join(filepath.Dir(tp(o.Path)), o.To))
+				if viaOpen && ierr == nil && terr == nil {
+					r.openPath = strings.TrimPrefix(filepath.ToSlash(filepath.Join(filepath.Dir(o.Path), o.To)), "./")
+				}
+			}
 		case "rename":
 			ierr = r.sess.WStat(ctx, fid, p9p.Dir{Mode: ^uint32(0), Length: ^uint64(0), Name: o.To})
 			// rename(2) itself: Go's os.Rename adds a check of its own
@@ -430,7 +466,11 @@ func c19Ops(rich bool) []HOp {
 	ops = append(ops, HOp{Kind: "mkdir", Path: "d", Perm: 0755}, HOp{Kind: "mkdir", Path: "d", Perm: 0777}, HOp{Kind: "mkdir", Path: "b", Perm: 0700},
 		HOp{Kind: "remove", Path: "d"}, HOp{Kind: "chmod", Path: "d", Perm: 0711},
 		HOp{Kind: "rename", Path: "a", To: "b"}, HOp{Kind: "rename", Path: "b", To: "a"}, HOp{Kind: "rename", Path: "a", To: "c"},
-		HOp{Kind: "rename", Path: "d", To: "e"}, HOp{Kind: "rename", Path: "d/a", To: "b"}, HOp{Kind: "close"})
+		HOp{Kind: "rename", Path: "d", To: "e"}, HOp{Kind: "rename", Path: "d/a", To: "b"}, HOp{Kind: "close"},
+		// several changes in one wstat (mode 0: unchanged; length -1: unchanged; name "": unchanged)
+		HOp{Kind: "wstat", Path: "a", Perm: 0600, Off: 2, To: "c"}, HOp{Kind: "wstat", Path: "a", Off: 0, To: "b"},
+		HOp{Kind: "wstat", Path: "a", Perm: 0755, Off: 7}, HOp{Kind: "wstat", Path: "b", Perm: 0600, Off: -1, To: "a"},
+		HOp{Kind: "wstat", Path: "d/a", Off: 2, To: "b"})
 	for _, off := range []int64{0, 1, 3} {
 		for _, n := range []int{0, 1, 5} {
 			ops = append(ops, HOp{Kind: "read", Off: off, N: n}, HOp{Kind: "write", Off: off, N: n})
@@ -442,7 +482,7 @@ func c19Ops(rich bool) []HOp {
 
 func c19(c *core.Ctx) {
 	c.Budget(100*time.Second, 12*time.Minute)
-	c.SetRule("breadth-first search over histories of create (perm x mode incl. OTRUNC) / mkdir / open (4-7 modes) / read+write through the open fid at offsets {0,1,3,6} x lengths {0,1,5} / close / truncate / chmod / rename / remove on paths {a, b, d, d/a} through a real ufs session on a private temp tree, mirrored step by step on a twin directory with the equivalent direct OS calls from an independent 9P->host table; after every step: both agree on success, data read through the fid equals the twin's, the exported tree equals the twin (names, types, permission bits, contents), and listings, stats and contents obtained through freshly walked fids equal the host's own view of the export (incl. whole-second mtime); states with equal twin tree + open fid are merged")
+	c.SetRule("breadth-first search over histories of create (perm x mode incl. OTRUNC) / mkdir / open (4-7 modes) / read+write through the open fid at offsets {0,1,3,6} x lengths {0,1,5} / close / truncate / chmod / rename / several of these in one wstat / remove on paths {a, b, d, d/a} through a real ufs session on a private temp tree, mirrored step by step on a twin directory with the equivalent direct OS calls from an independent 9P->host table; after every step: both agree on success, data read through the fid equals the twin's, the exported tree equals the twin (names, types, permission bits, contents), and listings, stats and contents obtained through freshly walked fids equal the host's own view of the export (incl. whole-second mtime); states with equal twin tree + open fid are merged")
 	c.Assume("runs as root on tmpfs (no permission denials); both trees live in the same process (same umask)", "one live fid per renamed/removed file; renaming a directory above the open file is outside the statement")
 	ops := c19Ops(!c.Quick())
 	depth := 5
